@@ -2033,7 +2033,11 @@ class ImportManager:
 
   @property
   def sorted_imports(self):
-    return sorted(self.imports, key=lambda s: s.module)
+    # `from __gin__ import ...` statements must come first, whatever the other
+    # module names are (names starting with an uppercase letter sort before '_').
+    return sorted(
+        self.imports,
+        key=lambda s: (not s.module.startswith('__gin__.'), s.module))
 
   def add_import(self, statement: config_parser.ImportStatement):
     """Adds a single import to this `ImportManager` instance.
